@@ -98,6 +98,8 @@ def line_case(case):
     if want is False and ok is True:
         # cross-field rules may be enforced when the line joins a Gfa (construction or Gfa.validate)
         segs = [universe.CAT[version][i][0] for i in ("sA", "sB", "sC")]
+        if version == "gfa1" and line.startswith("P\t"):
+            segs = segs + ["L\tA\t+\tB\t+\t*", "L\tB\t+\tC\t-\t*", "L\tC\t-\tA\t+\t*"]      # the links a path over A+,B+,C- may need
         try:
             g = gfapy.Gfa(segs + [line], version=version, vlevel=vlevel)
             g.validate()
@@ -130,6 +132,14 @@ def cases(tier, seed):
             if "\t" in s or "\n" in s:
                 continue
             out.append(("field", dt, s))
+    # cross-field shapes: P lines with 1-4 segments and 0-5 overlaps (all '*', all CIGARs, mixed)
+    segs = ["A+", "B+", "C-"]
+    for ns in range(1, 4):
+        for no in range(1, 6):
+            for ovk in ("star", "cigar", "mixed"):
+                ov = ["*" if (ovk == "star" or (ovk == "mixed" and k % 2)) else "1M" for k in range(no)]
+                for vlevel in (1, 2, 3):
+                    out.append(("line", "gfa1", "P\tp\t%s\t%s" % (",".join(segs[:ns]), ",".join(ov)), vlevel))
     nmut = 12 if tier == "quick" else 40
     for version in ("gfa1", "gfa2"):
         for i, (text, req) in universe.CAT[version].items():
